@@ -755,3 +755,26 @@ Definition run_its4 (its : gr) (core reindex explicit_h : bool) : tok :=
 (** the atoms h_to_explicit(G, nodes) visits: all of them for nodes = None or an empty list *)
 Definition exp_nodes (g : gr) (nodes : option (list N)) : list N :=
   match nodes with None | Some [] => node_ids g | Some l => l end.
+
+(** * Options of the converters: attribute selections (node_attrs / edge_attrs of smiles_to_graph, rsmi_to_graph, MolToGraph)
+    MolToGraph keeps the keys of the selection: props = {k: v for k, v in props.items() if k in node_attrs}; None keeps all.
+    Selecting commutes with the dictionary updates of add_node, so the selection is applied to the finished graph. *)
+Record asel := AS { k_el : bool; k_ar : bool; k_hc : bool; k_ch : bool; k_am : bool }.
+Definition asel_all : asel := AS true true true true true.
+Definition pick {A} (b : bool) (x : option A) : option A := if b then x else None.
+Definition sel_natt (s : asel) (a : natt) : natt :=
+  NA (pick (k_el s) (a_el a)) (pick (k_ar s) (a_ar a)) (pick (k_hc s) (a_hc a)) (pick (k_ch s) (a_ch a))
+     (pick (k_am s) (a_am a)) (a_tgh a).
+Definition sel_graph (s : asel) (keep_order : bool) (g : gr) : gr :=
+  LG (map (fun p : N * natt => (fst p, sel_natt s (snd p))) (gnodes g))
+     (map (fun e : N * N * eatt => (fst e, EA (pick keep_order (e_ord (snd e))) (e_std (snd e)))) (gedges g)).
+Definition mol_to_graph_sel (m : rmol) (drop ui : bool) (s : asel) (keep_order : bool) : gr :=
+  sel_graph s keep_order (mol_to_graph m drop ui).
+
+(** in-place edits a caller may apply to a returned graph (history cases) *)
+Definition ed_set_hc (n : N) (v : Z) (g : gr) : gr :=
+  set_node g n (fun a => NA (a_el a) (a_ar a) (Some v) (a_ch a) (a_am a) (a_tgh a)).
+Definition ed_del_ch (n : N) (g : gr) : gr :=
+  set_node g n (fun a => NA (a_el a) (a_ar a) (a_hc a) None (a_am a) (a_tgh a)).
+Definition ed_set_ch (n : N) (v : Z) (g : gr) : gr :=
+  set_node g n (fun a => NA (a_el a) (a_ar a) (a_hc a) (Some v) (a_am a) (a_tgh a)).
